@@ -417,6 +417,7 @@ type path struct {
 	intRanges  map[*Term][2]int64
 	decided    map[*Term]bool
 	permUsed   bool
+	depthLimit int
 	lastBranch bool
 	pins       map[*Term]int64
 }
